@@ -49,15 +49,17 @@ PatT == { <<"none", TRUE, "absent", "absent", "absent", "ok", "absent">> }
         \cup ({"dir"} \X {TRUE} \X {"absent"} \X {"absent"} \X {"absent"} \X {"ok"} \X {"absent", "present"})
 All == { Scenario(s[1], s[2], s[3], s[4], s[5], s[6], a, p[1], p[2], p[3], p[4], p[5], p[6], p[7], d, k) :
             s \in SrcT, a \in Shapes, p \in PatT, d \in {"none", "good", "bad", "missing"}, k \in Cmds }
-       \cup { Vcs(Scenario("files", TRUE, "absent", "none", "absent", "absent", "ok",
+AllVcs == { Vcs(Scenario("files", TRUE, "absent", "none", "absent", "absent", "ok",
                           p[1], p[2], p[3], p[4], p[5], p[6], p[7], d, k), kd, v, r) :
                kd \in Kinds \ {"file"}, v \in {"ok", "fail"}, r \in {"head", "pinned"},
                p \in PatT, d \in {"none", "good", "bad", "missing"}, k \in Cmds }
-Scenarios == IF Universe = "all" THEN All ELSE Families
+InScenarios(s) == IF Universe = "all" THEN s \in All \/ s \in AllVcs ELSE s \in Families
 \* the replayed families are part of the full product
-ASSUME Universe = "all" => Families \subseteq All
+ASSUME Universe = "all" => \A f \in Families : f \in All \/ f \in AllVcs
 
-Init == /\ sc \in Scenarios
+Init == /\ \/ Universe = "all" /\ sc \in All
+           \/ Universe = "all" /\ sc \in AllVcs
+           \/ Universe # "all" /\ sc \in Families
         /\ run = 1 /\ pc = "start" /\ w = "src" /\ from = "none" /\ hand = "none"
         /\ fs = InitFS(sc) /\ fs0 = InitFS(sc) /\ status = <<>> /\ fetched = {}
 
